@@ -724,6 +724,42 @@ inline void prop_c16(const vf::Case& c, Ctx& ctx)
         S s(c[r]);
         history_step(*w, s, ctx);
     }
+    if (h.below(3) == 0 && !w->live_tracks().empty())
+    {
+        // values the setters accept although they are outside the nominal domain (non-finite doubles): states reachable through the API,
+        // in which "unchanged" can no longer be decided by comparing values with == inside the library
+        dj::track t = w->tracks[w->live_tracks()[h.below(w->live_tracks().size())]].handle;
+        double nan = std::numeric_limits<double>::quiet_NaN(), inf = std::numeric_limits<double>::infinity();
+        int stored = 0;
+        auto attempt = [&](auto&& fn) {
+            try
+            {
+                fn();
+                ++stored;
+            }
+            catch (const std::exception&)
+            {
+            }
+        };
+        unsigned which = static_cast<unsigned>(h.below(64));
+        if (which & 1)
+            attempt([&] { t.set_average_loudness(nan); });
+        if (which & 2)
+            attempt([&] { t.set_main_cue(nan); });
+        if (which & 4)
+            attempt([&] { t.set_hot_cue_at(3, dj::hot_cue{"nan", nan, e::standard_pad_colors::pad_2}); });
+        if (which & 8)
+            attempt([&] { t.set_loop_at(1, dj::loop{"inf", 0.0, inf, e::standard_pad_colors::pad_3}); });
+        if (which & 16)
+            attempt([&] { t.set_bpm(nan); });
+        if (which & 32)
+            attempt([&] { t.set_beatgrid({{0, 0.0}, {8, nan}}); });
+        if (stored)
+        {
+            w->hist += " | " + std::to_string(stored) + " non-finite value(s) stored in track " + std::to_string(t.id());
+            ctx.label("non-finite-values-stored");
+        }
+    }
     bool rich = rich_state(*w);
     // ---- observation phase: every observer twice; no write statement, no change counter movement, same answers
     auto& sh = vfshim::state();
